@@ -12,6 +12,7 @@
  */
 
 #include "cppParser.h"
+#include "verif_trace.h"
 #include "cppFile.h"
 #include "cppTypeParser.h"
 #include "cppBisonDefs.h"
@@ -55,8 +56,10 @@ parse_file(const Filename &filename) {
   if (it != _parsed_files.end() && it->_pragma_once) {
     // But mark it as local.
     it->_source = CPPFile::S_local;
+    VERIF_EVENT("{\"e\":\"TopFile\",\"name\":" << VERIF_Q(filename.get_fullpath()) << ",\"path\":" << VERIF_Q(canonical.get_fullpath()) << ",\"once\":1}");
     return true;
   }
+  VERIF_EVENT("{\"e\":\"TopFile\",\"name\":" << VERIF_Q(filename.get_fullpath()) << ",\"path\":" << VERIF_Q(canonical.get_fullpath()) << ",\"once\":0}");
 
   if (!init_cpp(file)) {
     std::cerr << "Unable to read " << filename << "\n";
